@@ -109,7 +109,7 @@ def library_part(res, tier, rng, only=None):
     wd = vlib.scratch("C01")
     cases = gen(rng, tier) if only is None else [(bytes.fromhex(only["content_hex"]), only["line"])]
     lines = [c[1] for c in cases]
-    io, errs = vlib.run_cases_resilient(impl, lines, wd, "lib", env={"ZH_TMP": wd}, timeout=3000)
+    io, errs = vlib.run_cases_resilient(impl, lines, wd, "lib", env={"ZH_TMP": wd}, timeout=3000, max_restarts=6)
     em = dict(errs)
     for k, ((D, line), o) in enumerate(zip(cases, io)):
         res.evaluations += 1
